@@ -100,7 +100,7 @@ FAMILIES = {
                     OpKinds=S("New", "Add", "Remove", "Set", "Kill", "Copy", "Exchange", "NewNoInit", "AddNoInit"),
                     NewSets=S(S(), S("A"), S("A", "B")), DeltaSets=S(S("A"), S("B"), S("A", "B")),
                     FilterCat=[], RegCat=S()),
-        tiers=dict(quick=dict(MaxHist=5), thorough=dict(MaxHist=6)),
+        tiers=dict(quick=dict(MaxHist=6, EmitPct=6), thorough=dict(MaxHist=7, EmitPct=10)),
         exec=dict(comps=["A", "B"]),
     ),
     "rel": dict(
@@ -108,7 +108,7 @@ FAMILIES = {
                     OpKinds=S("New", "Add", "Remove", "SetRel", "Kill", "Shrink", "KillBatch", "SetRelBatch"),
                     NewSets=S(S(), S("R"), S("A", "R")), DeltaSets=S(S("A"), S("R")),
                     FilterCat=[F(with_=["R"]), F(with_=["R"], qtc=["R"])], RegCat=S()),
-        tiers=dict(quick=dict(MaxHist=5), thorough=dict(MaxHist=6)),
+        tiers=dict(quick=dict(MaxHist=5, EmitPct=25), thorough=dict(MaxHist=6, EmitPct=20)),
         exec=dict(comps=["A", "R"]),
     ),
     "cache": dict(
@@ -118,7 +118,7 @@ FAMILIES = {
                     FilterCat=[F(with_=["R"]), F(with_=["R"], ftc=["R"]), F(with_=["A"], without=["R"]),
                                F(with_=["R"], qtc=["R"])],
                     RegCat=S(1, 2, 3)),
-        tiers=dict(quick=dict(MaxHist=5), thorough=dict(MaxHist=6)),
+        tiers=dict(quick=dict(MaxHist=5, EmitPct=30), thorough=dict(MaxHist=6, EmitPct=25)),
         exec=dict(comps=["A", "R"]),
     ),
 }
@@ -128,7 +128,7 @@ FAMILIES["shrink"] = dict(
                 OpKinds=S("New", "Kill", "SetRel", "Shrink", "Remove", "Add"),
                 NewSets=S(S(), S("R")), DeltaSets=S(S("R")),
                 FilterCat=[F(with_=["R"])], RegCat=S()),
-    tiers=dict(quick=dict(MaxHist=7), thorough=dict(MaxHist=9)),
+    tiers=dict(quick=dict(MaxHist=7, EmitPct=2), thorough=dict(MaxHist=8, EmitPct=3)),
     exec=dict(comps=["R"]),
 )
 
@@ -150,6 +150,10 @@ FAMILIES["wide"] = dict(
 DRIVES = {
     "wide": dict(comps=["A", "B", "C", "R"], maxent=20, quick=dict(count=160, len=300), thorough=dict(count=3000, len=500)),
     "rel2": dict(comps=["A", "R", "S"], maxent=14, quick=dict(count=160, len=250), thorough=dict(count=3000, len=400)),
+    "obs": dict(comps=["A", "B", "R"], maxent=8, extra=dict(observers=4), quick=dict(count=300, len=150), thorough=dict(count=6000, len=250)),
+    "obs2": dict(comps=["A", "R", "S"], maxent=8, extra=dict(observers=5), quick=dict(count=300, len=150), thorough=dict(count=6000, len=250)),
+    "lock": dict(comps=["A", "B", "R"], maxent=10, extra=dict(queries=6, observers=2), quick=dict(count=300, len=200), thorough=dict(count=6000, len=300)),
+    "lock64": dict(comps=["A", "R"], maxent=6, extra=dict(queries=62), quick=dict(count=60, len=400), thorough=dict(count=1000, len=600)),
     "plain": dict(comps=["A", "B", "C"], maxent=40, quick=dict(count=100, len=400), thorough=dict(count=1500, len=800)),
 }
 
@@ -161,6 +165,8 @@ CELLS = {
     "unsafe2":  dict(path="unsafe", caps=[2, 1], relst="id"),
     "exch8":    dict(path="exchange", caps=[8], relst="idx", perm=True),
     "typedfill": dict(path="typed", caps=[1], relst="idx", fill=62),
+    "typed53":  dict(path="typed", caps=[5, 3], relst="idx"),
+    "unsafe3":  dict(path="unsafe", caps=[3], relst="id"),
 }
 
 # property -> list of (family, [cells]) ; quick picks a seed-chosen subset of cells
@@ -175,13 +181,19 @@ PLANS = {
             ("drive:wide", ["typed1", "unsafe2"])],
     "C05": [("cache", ["typed1", "typed11", "unsafe1"]), ("drive:wide", ["typed1", "unsafe2"]), ("drive:rel2", ["typed11", "unsafe1"])],
     "C15": [("rel", ["typed1", "unsafe2"]), ("cache", ["typed1", "unsafe1"]), ("shrink", ["typed1", "unsafe2"]),
-            ("drive:wide", ["typed1", "unsafe2"]), ("drive:rel2", ["typed11", "unsafe1"])],
+            ("drive:wide", ["typed1", "unsafe2", "typed53"]), ("drive:rel2", ["typed11", "unsafe1", "unsafe3"])],
 }
 
 # per-property executor settings (quick, thorough): probes = query battery size, misuse = misuse battery size
 PROP_CFG = {
     "C10": (dict(probes=0, misuse=10), dict(probes=0, misuse=-1)),
 }
+PLANS["C08"] = [("drive:obs", ["typed1", "unsafe2", "typed11"]), ("drive:obs2", ["typed11", "unsafe1"])]
+PLANS["C09"] = [("drive:obs", ["typed1", "unsafe2", "typed11"]), ("drive:obs2", ["typed11", "unsafe1"])]
+PROP_CFG["C08"] = (dict(probes=1), dict(probes=2))
+PROP_CFG["C09"] = (dict(probes=1), dict(probes=2))
+PLANS["C07"] = [("drive:lock", ["typed1", "unsafe2", "typed11"]), ("drive:lock64", ["typed1", "unsafe1"])]
+PROP_CFG["C07"] = (dict(probes=2, misuse=8), dict(probes=4, misuse=-1))
 PLANS["C10"] = [("core", ["typed1", "unsafe1", "exch8"]), ("rel", ["typed1", "unsafe1", "typed11"])]
 
 
@@ -422,6 +434,7 @@ def drive_family(ctx, name, cells, probes, extra_cfg=None):
         for sh in range(shards):
             cfg = dict(CELLS[cell])
             cfg.update(comps=dr["comps"], probes=probes, seed=ctx.seed * 100003 + ci * 1009 + sh, reuse=True, maxent=dr["maxent"])
+            cfg.update(dr.get("extra", {}))
             if extra_cfg:
                 cfg.update(extra_cfg)
             jobs.append((cell, cfg, os.path.join(d, "log-%s.%d.ndjson" % (cell, sh))))
@@ -489,7 +502,7 @@ def matches_known(v, k):
 # ------------------------------------------------------------------------------------------
 
 def write_replay(ctx, v, n):
-    d = os.path.join(VERIF, "replays")
+    d = os.path.join(VERIF, "replays") if os.path.realpath(REPO) == "/repo" else os.path.join(WORKROOT, "replays-scratch")
     os.makedirs(d, exist_ok=True)
     p = os.path.join(d, "%s-%s-%d.json" % (ctx.pid, v["cls"].replace(".", "_"), n))
     json.dump(dict(property=ctx.pid, cls=v["cls"], detail=v["detail"], family=v["family"], cfg=v["cfg"], ops=v["ops"],
@@ -514,7 +527,11 @@ def attribute_by_ablation(ctx):
     Shrink calls are removed from the history (C15), resp. when the history before the Reset is removed
     and the rest runs on a fresh world (C16)."""
     extra, done = [], set()
-    for v in ctx.violations:
+    # shortest histories first; a handful of confirmed attributions is enough for a verdict
+    cand = sorted([v for v in ctx.violations if v.get("ops")], key=lambda v: len(v["ops"]))
+    for v in cand:
+        if len(extra) >= 5 or len(done) >= 40:
+            break
         ops = v.get("ops") or []
         kinds = [o["op"] for o in ops]
         key = json.dumps(ops, sort_keys=True) + json.dumps(v["cfg"], sort_keys=True)
@@ -599,8 +616,10 @@ def finish(ctx, level_text):
         wall_s=round(time.time() - ctx.t0, 1),
         violations=nrep,
     )
-    os.makedirs(os.path.join(VERIF, "evidence"), exist_ok=True)
-    json.dump(ev, open(os.path.join(VERIF, "evidence", ctx.pid + ".json"), "w"), indent=1, default=list)
+    # runs against a scratch copy of the repository (seed sweeps) must not overwrite the evidence of /repo
+    evdir = os.path.join(VERIF, "evidence") if os.path.realpath(REPO) == "/repo" else os.path.join(WORKROOT, "evidence-scratch")
+    os.makedirs(evdir, exist_ok=True)
+    json.dump(ev, open(os.path.join(evdir, ctx.pid + ".json"), "w"), indent=1, default=list)
     return 1 if nrep else 0
 
 
@@ -611,7 +630,7 @@ def check_generic(ctx):
     for fam, cells in plan:
         pc = PROP_CFG.get(ctx.pid, (dict(probes=6), dict(probes=24)))[0 if quick else 1]
         if fam.startswith("drive:"):
-            drive_family(ctx, fam[6:], choose_cells(ctx, cells), pc.get("probes", 0),
+            drive_family(ctx, fam[6:], cells, pc.get("probes", 0),
                          extra_cfg={k: v for k, v in pc.items() if k != "probes"})
             continue
         gen = run_generator(ctx, fam, 1500 if not quick else 400)
